@@ -167,6 +167,7 @@ def ident_of(value):
 
 class IdDictModel:
     """`_resources` / `_windows`: dicts keyed by id(obj) holding (obj, name, range)."""
+    window_name_case = None
     def __init__(self, owner, kind):
         self.owner, self.kind = owner, kind      # kind: 'res' | 'win'
 
@@ -180,11 +181,14 @@ class IdDictModel:
         k = ex.toint(key, node)
         arr = v.isres if self.kind == "res" else v.iswin
         ex.oblige(f"dict-key-present@{node.lineno}", q, arr[k], node)      # else KeyError: an internal error
+        name = NameOf(self.owner, k)
         if self.kind == "res":
             rng = Rng(v.rS[k], v.rE[k], z3.IntVal(1))
         else:
             rng = Rng(v.wS[k], v.wE[k], v.wT[k])
-        return [(Tup((Ref(k), NameOf(self.owner, k), rng)), q)]
+            if IdDictModel.window_name_case is False:       # the caller enumerates: named / anonymous window
+                name = NONE
+        return [(Tup((Ref(k), name, rng)), q)]
 
     def setitem(self, ex, recv, key, value, q, node):
         v = view_of(q, self.owner).copy()
